@@ -33,7 +33,7 @@ THEOREMS = ['documented_tables', 'env_prefix', 'env_prefix_names', 'tokens_spec'
             'discard_implies_decompress', 'noop_insert', 'noop_insert_list',
             'noop_insert_setup', 'noop_insert_cluster', 'cluster_eq_separate',
             'c_t_conflict', 'c_t_conflict_events', 'c_t_conflict_tokens',
-            'cat_t_conflict']
+            'cat_t_conflict', 'flags_and_level']
 
 P = b'lbzip2 verification plaintext\n' * 3
 B = bz2.compress(P, 9)          # valid in every mode: compress it or expand it
